@@ -17,6 +17,7 @@ import re
 import shutil
 import subprocess
 import threading
+import time
 
 import vlib
 
@@ -58,6 +59,7 @@ def phys_path(p, follow_last):
     return os.path.join(os.path.realpath(os.path.dirname(p)), base)
 
 
+RET = re.compile(r"\)\s+= ")
 TOK_FD = re.compile(r"^(AT_FDCWD|-?\d+)(?:<(.*)>)?$")
 TOK_STR = re.compile(r'^"(.*)"(\.\.\.)?$')
 
@@ -95,12 +97,12 @@ def parse_strace(fn):
                     continue
                 rest = pending.pop(tid) + rest[k + len("resumed>"):]
             par = rest.find("(")
-            eq = rest.rfind(") = ")
-            if par < 0 or eq < 0:
+            eqs = list(RET.finditer(rest))
+            if par < 0 or not eqs:
                 continue
             call = rest[:par]
-            args = rest[par + 1:eq].split(", ")
-            ret = rest[eq + 4:].strip()
+            args = rest[par + 1:eqs[-1].start()].split(", ")
+            ret = rest[eqs[-1].end():].strip()
             ok = not ret.startswith("-1") and not ret.startswith("?")
 
             def fdpath(tok):
@@ -252,7 +254,9 @@ def events_for_chunk(args):
         for ch in fa["changes"]:
             lines.append({"ev": "chg", "n": sid, "what": ch["what"], "path": lex_segs(os.path.realpath(os.path.dirname(ch["path"])) + "/" + os.path.basename(ch["path"]))})
         lines.append({"ev": "vic", "n": sid, "same": fa["victim_same"]})
-        if have_strace and s["ep"] in ("art", "tar", "lnk"):
+        # (a tar header cannot carry a NUL: the code sees a truncated name, so those archives are not compared)
+        nul_in_tar = s["ep"] in ("tar", "lnk") and any("nul" in e["n"] for e in s["ents"])
+        if have_strace and s["ep"] in ("art", "tar", "lnk") and not nul_in_tar:
             lines.append({"ev": "obs", "n": sid, "touched": touched})
     return {"lines": lines, "stats": stats, "facts": facts}
 
@@ -308,15 +312,20 @@ def run(ctx):
                     raise vlib.ToolError("%s: the model no longer shows the expected containment violation" % cfg)
         except Exception as e:  # surfaced after join
             mc_res["error"] = e
+    ctx._specdir()   # create the scratch copy of spec/ before threads race for it
     th = threading.Thread(target=mc)
     th.start()
 
-    gen = ctx.tlc_scenarios("PathSafeGen", "C20_gen.cfg" if ctx.thorough else "C20_gen_quick.cfg", workers=4,
-                            label="scenario space of PathSafe", timeout=1500)
+    with concurrent.futures.ThreadPoolExecutor(max_workers=3) as ex:
+        f_gen = ex.submit(ctx.tlc_scenarios, "PathSafeGen", "C20_gen.cfg" if ctx.thorough else "C20_gen_quick.cfg", workers=4,
+                          label="scenario space of PathSafe", timeout=1500)
+        f_links = ex.submit(ctx.tlc_scenarios, "PathSafeGen", "C20_gen_links.cfg", workers=2, label="link archives, verdict if materialised")
+        f_asis = ex.submit(ctx.tlc_scenarios, "PathSafeGen", "C20_gen_lay_asis.cfg", workers=2,
+                           label="layout scenarios, verdict of the as-found model")
+        gen, raw_links, asis = f_gen.result(), f_links.result(), f_asis.result()
     space = gen["scenarios"]
-    raw_links = ctx.tlc_scenarios("PathSafeGen", "C20_gen_links.cfg", workers=2, label="link archives, verdict if materialised")
+    vlib.log("C20: %d scenarios generated at %.0fs" % (len(space), time.time() - ctx.t0))
     dangerous = {json.dumps(s["ents"], sort_keys=True) for s in raw_links["scenarios"] if s["esc"] == 1}
-    asis = ctx.tlc_scenarios("PathSafeGen", "C20_gen_lay_asis.cfg", workers=2, label="layout scenarios, verdict of the as-found model")
     asis_esc = {(s["op"], s["h"], s["place"], s["wm"], s["chk"]) for s in asis["scenarios"] if s["esc"] == 1}
     by = {}
     for s in space:
@@ -324,8 +333,8 @@ def run(ctx):
     total = {k: len(v) for k, v in by.items()}
     if total.get("lay", 0) < 500 or total.get("art", 0) < 20000 or total.get("lnk", 0) < 5000:
         raise vlib.ToolError("scenario space too small: %s" % total)
-    if any(s["esc"] for s in space):
-        raise vlib.ToolError("the design model says a scenario escapes")
+    if any(s["esc"] for s in asis["scenarios"] if s["op"] != "ManifestDelete"):
+        raise vlib.ToolError("the as-found model says a layout operation other than ManifestDelete escapes")
 
     def short(s):
         return len(s["segs"]) <= 2
@@ -346,7 +355,7 @@ def run(ctx):
     scn_by_id = {s["id"]: s for s in chosen}
 
     # ---- execute under strace, one driver per chunk
-    nchunks = 14 if ctx.thorough else 8
+    nchunks = 14 if ctx.thorough else 12
     tree_root = os.path.realpath(ctx.path("c20", "fs", "x"))[:-2]
     os.makedirs(tree_root, exist_ok=True)
     chunks = [chosen[i::nchunks] for i in range(nchunks)]
@@ -360,7 +369,7 @@ def run(ctx):
                 f.write(json.dumps(s) + "\n")
         facts = ctx.path("c20", "facts-%d.jsonl" % i)
         st = ctx.path("c20", "strace-%d.txt" % i)
-        argv = [os.path.join(ctx.bin, "c20drv"), "-in", fn, "-out", facts, "-root", os.path.join(tree_root, "w%d" % i),
+        argv = [os.path.join(ctx.bin, "c20drv"), "-in", fn, "-out", facts, "-root", os.path.join(tree_root, "w%d" % i, "r"),
                 "-regctl", os.path.join(ctx.bin, "regctl")]
         if have_strace:
             argv = ["strace", "-f", "--seccomp-bpf", "-y", "-xx", "-s", "4300", "-o", st, "-e", "trace=" + TRACE_SET] + argv
@@ -372,6 +381,7 @@ def run(ctx):
 
     with concurrent.futures.ThreadPoolExecutor(max_workers=nchunks) as ex:
         jobs = list(ex.map(drive, range(nchunks)))
+    vlib.log("C20: %d scenarios executed at %.0fs" % (len(chosen), time.time() - ctx.t0))
     with concurrent.futures.ProcessPoolExecutor(max_workers=min(nchunks, 8)) as ex:
         built = list(ex.map(events_for_chunk, jobs))
     # nothing may have appeared next to the per-driver roots
@@ -381,10 +391,15 @@ def run(ctx):
     stats = {"syscalls_seen": 0, "mutating_in_op": 0, "failed_mutating_in_op": 0, "reads_in_op": 0}
     logs = []
     all_facts = {}
+    nlogs = 8 if ctx.thorough else 6
+    merged = [[] for _ in range(nlogs)]
     for i, b in enumerate(built):
         for k in stats:
             stats[k] += b["stats"][k]
         all_facts.update(b["facts"])
+        merged[i % nlogs] += b["lines"]
+    for i, raw in enumerate(merged):
+        b = {"lines": raw}
         lines = [{k: v for k, v in e.items() if k != "raw"} for e in b["lines"]]
         if i == 0 and stray:
             lines.append({"ev": "scn", "n": 0, "allow": [lex_segs(tree_root) + ["w0"]], "ep": "-", "segs": [], "lead": 0, "trail": 0,
@@ -395,38 +410,98 @@ def run(ctx):
         with open(log, "w") as f:
             for e in lines:
                 f.write(json.dumps(e, sort_keys=True) + "\n")
-        logs.append((log, lines, b["lines"]))
+        logs.append((log, lines, b["lines"] + [{}] * (len(lines) - len(b["lines"]))))
+
+    vlib.log("C20: %d log lines built at %.0fs" % (sum(len(x[1]) for x in logs), time.time() - ctx.t0))
+
+    def write_log(fn, lines):
+        with open(fn, "w") as f:
+            for x in lines:
+                f.write(json.dumps(x, sort_keys=True) + "\n")
+
+    def scenario_span(lines, k):
+        n = lines[k].get("n")
+        a = k
+        while a > 0 and lines[a].get("ev") != "scn":
+            a -= 1
+        b = k
+        while b < len(lines) and lines[b].get("n") == n and (b == a or lines[b].get("ev") != "scn"):
+            b += 1
+        return a, b
+
+    confirmed = {}          # signature -> True once a representative was rejected under the invariant configuration
+    conf_lock = threading.Lock()
 
     def validate_log(item):
+        """Standard validation (invariant).  On rejection: record it, then ONE scan pass over the rest of the log lists
+        every further scenario whose latch TLC sets; per new signature one representative is confirmed under the
+        invariant configuration, the others are counted under the confirmed signature."""
         log, lines, rawlines = item
         out, st, tr, drift = [], 0, 0, set()
-        for attempt in range(40):
-            v = ctx.validate("PathSafeTrace", "C20_trace.cfg", log, timeout=3000)
-            st += v["distinct"]
-            tr += v["generated"]
-            drift |= {int(x) for x in re.findall(r'<<"DRIFT", (\d+)>>', v["output"])}
-            if v["accepted"]:
-                break
-            k = v["line"]
-            e = rawlines[k - 1]
-            detail = (v.get("detail") or v["reason"]).strip('"')
-            n = e.get("n")
-            # corroborating facts of the same scenario (reported, not judged here) and neutralisation of the scenario
-            same = [x for x in rawlines if x.get("n") == n and x["ev"] in ("sys", "chg", "vic", "rd")]
-            out.append((detail, e, same))
-            for j, x in enumerate(lines):
-                if x.get("n") == n and x["ev"] != "scn":
-                    lines[j] = {"ev": "skip", "n": n}
-            with open(log, "w") as f:
-                for x in lines:
-                    f.write(json.dumps(x, sort_keys=True) + "\n")
-        else:
-            vlib.log("more than 40 rejected scenarios in one log; stopping there")
-        return out, st, tr, drift
+        v = ctx.validate("PathSafeTrace", "C20_trace.cfg", log, timeout=3000)
+        st += v["distinct"]
+        tr += v["generated"]
+        drift |= {int(x) for x in re.findall(r'<<"DRIFT", (\d+)>>', v["output"])}
+        if v["accepted"]:
+            return out, st, tr, drift, 0
+        k = v["line"] - 1
+        e = rawlines[k]
+        detail = (v.get("detail") or v["reason"]).strip('"')
+        n = e.get("n")
+        out.append((detail, e, [x for x in rawlines if x.get("n") == n and x["ev"] in ("sys", "chg", "vic", "rd")], "invariant"))
+        if n in scn_by_id:
+            with conf_lock:
+                confirmed[sig_of(scn_by_id[n], detail)] = True
+        a, b = scenario_span(lines, k)
+        rest = lines[b:]
+        if not rest:
+            return out, st, tr, drift, 1
+        scan = log + ".scan"
+        write_log(scan, rest + [{"ev": "scn", "n": 0, "allow": [["-"]], "ep": "-", "segs": [], "lead": 0, "trail": 0, "unpack": 0,
+                                 "strip": 0, "ents": [], "op": "-", "h": "-", "place": "-", "wm": "-", "chk": 0}])
+        v2 = ctx.validate("PathSafeTrace", "C20_trace_scan.cfg", scan, timeout=3000)
+        st += v2["distinct"]
+        tr += v2["generated"]
+        drift |= {int(x) for x in re.findall(r'<<"DRIFT", (\d+)>>', v2["output"])}
+        if not v2["accepted"]:
+            raise vlib.ToolError("scan pass did not reach the end of the log:\n" + v2["output"][-2000:])
+        flagged = []
+        for m in re.finditer(r'<<"REJECT", (\d+), "(.*)">>', v2["output"]):
+            if (int(m.group(1)), m.group(2)) not in flagged:
+                flagged.append((int(m.group(1)), m.group(2)))
+        runs = 2
+        for n2, detail2 in flagged:
+            idx = next(i for i, x in enumerate(lines) if x.get("n") == n2 and x["ev"] == "scn")
+            a2, b2 = scenario_span(lines, idx)
+            sg = sig_of(scn_by_id[n2], detail2) if n2 in scn_by_id else "harness-tree:stray"
+            with conf_lock:
+                need = sg not in confirmed
+                confirmed[sg] = True
+            how = "scan (signature confirmed under the invariant on another scenario)"
+            ev = None
+            if need:
+                one = log + ".one"
+                write_log(one, lines[a2:b2])
+                v3 = ctx.validate("PathSafeTrace", "C20_trace.cfg", one, timeout=600)
+                runs += 1
+                st += v3["distinct"]
+                tr += v3["generated"]
+                if v3["accepted"]:
+                    raise vlib.ToolError("scenario %d flagged by the scan pass is accepted under the invariant" % n2)
+                ev = rawlines[a2 + v3["line"] - 1]
+                detail2 = (v3.get("detail") or v3["reason"]).strip('"')
+                how = "invariant"
+            if ev is None:
+                # the first fact of the scenario that the scan latched on is not printed; report the scenario header
+                ev = next((x for x in rawlines[a2:b2] if x["ev"] in ("sys", "chg", "vic", "rd") and x.get("n") == n2), rawlines[a2])
+            out.append((detail2, ev, [x for x in rawlines[a2:b2] if x["ev"] in ("sys", "chg", "vic", "rd")], how))
+        return out, st, tr, drift, runs
 
     with concurrent.futures.ThreadPoolExecutor(max_workers=8) as ex:
         results = list(ex.map(validate_log, logs))
+    vlib.log("C20: validated at %.0fs" % (time.time() - ctx.t0))
     th.join()
+    vlib.log("C20: model checking joined at %.0fs" % (time.time() - ctx.t0))
     if "error" in mc_res:
         raise mc_res["error"]
 
@@ -436,11 +511,11 @@ def run(ctx):
     rejected_scn = set()
     drift = set()
     observed_escape_lay = set()
-    for rej, st, tr, dr in results:
+    for rej, st, tr, dr, _ in results:
         states += st
         trans += tr
         drift |= dr
-        for detail, e, same in rej:
+        for detail, e, same, how in rej:
             if detail.startswith("tooling"):
                 raise vlib.ToolError("malformed trace line: %s %s" % (detail, json.dumps(e)[:300]))
             n = e["n"]
@@ -458,7 +533,7 @@ def run(ctx):
             scn_small = {k: s[k] for k in ("ep", "segs", "lead", "trail", "unpack", "strip", "ents", "op", "h", "place", "wm", "chk")}
             ctx.report(sig_of(s, detail), "%s; hostile input %r" % (what, hostile[:120]),
                        {"scenario": scn_small, "hostile_input": hostile[:400], "rejected_event": e, "error_returned": fa["err"],
-                        "designated": fa["out"], "facts_of_scenario": same[:40]})
+                        "designated": fa["out"], "facts_of_scenario": same[:40], "rejected_by": how})
     # agreement of the as-found model with the real code on layout scenarios (information, not a verdict)
     model_vs_code = {"model_asis_predicts_escape": len(asis_esc), "code_escaped": len(observed_escape_lay),
                      "predicted_and_observed": len(asis_esc & observed_escape_lay),
@@ -466,28 +541,42 @@ def run(ctx):
                      "predicted_not_observed": sorted(map(list, asis_esc - observed_escape_lay))[:10]}
 
     # ---- binding demos: corrupt one accepted fact, the monitor must reject
-    clean = [lg for lg, res in zip(logs, results) if not res[0]] or logs
+    clean = logs
+
+    demo_lines = []
+    demo_names = []
 
     def demo(name, pred, edit):
         lines = clean[0][1]
         for i, e in enumerate(lines):
             if pred(e):
-                hdr = next(x for x in reversed(lines[:i]) if x["ev"] == "scn")
+                hdr = dict(next(x for x in reversed(lines[:i]) if x["ev"] == "scn"))
+                hdr["n"] = 900000 + len(demo_names)
                 e2 = json.loads(json.dumps(e))
+                e2["n"] = hdr["n"]
                 edit(e2, hdr)
-                p = ctx.path("c20", "demo-%s.ndjson" % name)
-                with open(p, "w") as f:
-                    f.write(json.dumps(hdr) + "\n" + json.dumps(e2) + "\n")
-                if ctx.validate("PathSafeTrace", "C20_trace.cfg", p)["accepted"]:
-                    raise vlib.ToolError("binding demo %s accepted: the trace spec does not bind" % name)
+                demo_lines.extend([hdr, e2])
+                demo_names.append(name)
                 return
         raise vlib.ToolError("binding demo %s: nothing to corrupt" % name)
     if have_strace:
         demo("sibling", lambda e: e["ev"] == "sys", lambda e, h: e.update(phys=h["allow"][0][:-1] + ["victim"]))
         demo("prefix-name", lambda e: e["ev"] == "sys", lambda e, h: e.update(phys=h["allow"][0][:-1] + [h["allow"][0][-1] + "2", "x"]))
         demo("lexical", lambda e: e["ev"] == "sys", lambda e, h: e.update(lex=["etc", "passwd"]))
+        demo("read", lambda e: e["ev"] == "rd", lambda e, h: e.update(phys=h["allow"][0][:-1] + ["victim"]))
     demo("victim", lambda e: e["ev"] == "vic", lambda e, h: e.update(same=0))
     demo("listing", lambda e: e["ev"] == "chg", lambda e, h: e.update(path=h["allow"][0][:-1] + ["pwned.txt"]))
+    p1 = ctx.path("c20", "demo-first.ndjson")
+    write_log(p1, demo_lines[:2])
+    if ctx.validate("PathSafeTrace", "C20_trace.cfg", p1)["accepted"]:
+        raise vlib.ToolError("binding demo %s accepted under the invariant: the trace spec does not bind" % demo_names[0])
+    p2 = ctx.path("c20", "demo-all.ndjson")
+    write_log(p2, demo_lines + [dict(demo_lines[0], n=0)])
+    vd = ctx.validate("PathSafeTrace", "C20_trace_scan.cfg", p2)
+    got = {int(x) for x in re.findall(r'<<"REJECT", (\d+), ', vd["output"])}
+    for i, name in enumerate(demo_names):
+        if 900000 + i not in got:
+            raise vlib.ToolError("binding demo %s not rejected: the trace spec does not bind" % name)
 
     ran = {}
     for s in chosen:
